@@ -99,6 +99,10 @@ func runDKGFaults(t *testing.T, rc *RunCtx) {
 			}
 		}
 	}
+	if rc.Param("mode", "") != "matrix" && ch.Pick(4, 0) == 3 {
+		runDKGSameNameRace(t, rc)
+		return
+	}
 	n, th := dc.N, dc.T
 	var ids []uint64
 	if rc.Param("mode", "") == "matrix" {
@@ -206,6 +210,57 @@ func runDKGFaults(t *testing.T, rc *RunCtx) {
 	}
 	rc.Stats.Inc("recovery_generations", 1)
 	s.Direct(func() { c.checkGenerated("C13", "Wallet 3/after", uint32(th), parts, out2, s.Step) })
+}
+
+// runDKGSameNameRace: no message fault at all - two clients ask two instances for the same account name at the same
+// time (the second one asks again when it is refused), either initiator slow at a round boundary.  A generation that is
+// reported as failed has created nothing: when both clients are told their generation failed, no instance holds the
+// account; a client that is told it succeeded holds a fully consistent key.
+func runDKGSameNameRace(t *testing.T, rc *RunCtx) {
+	ch := rc.Ch
+	n := 2 + ch.Pick(3, 0)
+	th := n/2 + 1 + ch.Pick(n-n/2, 0)
+	thB := th
+	if n/2+1 < n {
+		thB = n/2 + 1 + (th-n/2)%(n-n/2)
+	}
+	ids := idSet(rc, 0, n)
+	s := NewSched(rc, SchedCfg{StayBias: []float64{0, 0.5}[ch.Pick(2, 0)], MaxSteps: 40000})
+	defer s.Close()
+	c := NewCluster(t, rc, s, ClusterCfg{IDs: ids, Order: ids})
+	defer c.Close()
+	path := "Wallet 3/contested"
+	a := c.spawnGenerate(c.Nodes[ch.Pick(n, 0)], "client1", path, uint32(th), uint32(n))
+	b := c.spawnGenerateRetrying(c.Nodes[ch.Pick(n, 0)], "client2", path, uint32(thB), uint32(n), 1+ch.Pick(3, 0))
+	round := []string{"prepare", "execute", "commit"}[ch.Pick(3, 0)]
+	s.StallWhen(a.task, func(p *Park) bool { return p.Kind == KSend && p.Label == round }, 4+ch.Pick(20*n, 0))
+	desc := fmt.Sprintf("two generations of one name at once n%d t%d/%d, first initiator slow before its %s round", n, th, thB, round)
+	rc.Stats.Seen("cases", desc)
+	rc.Sample = map[string]any{"case": desc}
+	if o := s.Run(); o != "done" || !a.Done || !b.Done {
+		rc.Truncated = o == "truncated"
+		return
+	}
+	if p := c.anyPanic(); p != "" {
+		rc.Violate("C13", "instance-crashed", fmt.Sprintf("%s: %s", desc, p), s.Step)
+		return
+	}
+	rc.Stats.Inc("same_name_races", 1)
+	rc.Logf("%s -> first %v %q, second %v %q", desc, a.State, a.Message, b.State, b.Message)
+	s.Direct(func() {
+		okA, okB := a.State == pb.ResponseState_SUCCEEDED, b.State == pb.ResponseState_SUCCEEDED
+		switch {
+		case okA && !okB:
+			c.checkGenerated("C13", path, uint32(th), c.Nodes, a, s.Step)
+		case okB && !okA:
+			c.checkGenerated("C13", path, uint32(thB), c.Nodes, b, s.Step)
+		case !okA && !okB:
+			c.noAccountAnywhere("C13", path, desc+": both clients were told their generation failed", s.Step)
+			rc.Stats.Inc("failed_generations", 1)
+		default:
+			rc.Violate("C13", "two-generations-of-one-name-both-succeeded", desc, s.Step)
+		}
+	})
 }
 
 func init() {
